@@ -7,6 +7,7 @@
 package main
 
 import (
+	"encoding/hex"
 	"encoding/json"
 	"flag"
 	"fmt"
@@ -809,6 +810,15 @@ func runC13(seed int64, n int, grams []*hx.CmdGrammar) {
 				fail("c13-state", fmt.Sprintf("after %s the server's database differs from the twin driven through the Go API (%s)\n server: %s\n twin  : %s", q(args), why, a.Text, b.Text), hist)
 				return false
 			}
+			// an absolute expiry involves no clock: where the documented API call stored exactly the
+			// requested instant, the server must have stored it too
+			if at, okAt := absoluteExpiry(args); okAt {
+				k := "x" + hex.EncodeToString([]byte(args[1]))
+				if eb, has := b.ETimes[k]; has && eb == at && a.ETimes[k] != at {
+					fail("c13-state", fmt.Sprintf("after %s the key's expiry instant is %d on the server; the request and the documented API call say %d", q(args), a.ETimes[k], at), hist)
+					return false
+				}
+			}
 		}
 		if len(sum.Samples) < 6 && len(args) > 2 {
 			sum.Samples = append(sum.Samples, q(args)+" => "+got.Verbose())
@@ -1198,6 +1208,37 @@ func c13Sweep(g *hx.WireGen, grams []*hx.CmdGrammar, one func(i int, args []stri
 			}
 		}
 	}
+}
+
+// absoluteExpiry: the request sets an expiry given as a point in time; returns it in milliseconds.
+func absoluteExpiry(args []string) (int64, bool) {
+	num := func(s string, mul int64) (int64, bool) {
+		n, err := strconv.ParseInt(s, 10, 64)
+		if err != nil || n > 1<<50 || n < 0 {
+			return 0, false
+		}
+		return n * mul, true
+	}
+	switch strings.ToLower(args[0]) {
+	case "expireat":
+		if len(args) == 3 {
+			return num(args[2], 1000)
+		}
+	case "pexpireat":
+		if len(args) == 3 {
+			return num(args[2], 1)
+		}
+	case "set":
+		for i := 3; i+1 < len(args); i++ {
+			switch strings.ToLower(args[i]) {
+			case "exat":
+				return num(args[i+1], 1000)
+			case "pxat":
+				return num(args[i+1], 1)
+			}
+		}
+	}
+	return 0, false
 }
 
 // scanFromStart: the cursor argument of a SCAN / SSCAN / HSCAN / ZSCAN request is 0.
